@@ -20,6 +20,18 @@ partial def showTT : TT → String
 partial def showToks (ts : Toks) : String := " ".intercalate (ts.map showTT)
 end
 
+-- a token list in the wire syntax of the harness: [T i:name p:, l:<hex> (p .. ) ]
+mutual
+partial def wireTT : TT → String
+  | .ident s => "i:" ++ s
+  | .punct c => "p:" ++ c.toString
+  | .lit s => "l:" ++ Obs.hexOf s
+  | .group d ts =>
+      (match d with | .paren => "(p" | .brace => "(b" | .bracket => "(k" | .none => "(n") ++ " " ++ wireInner ts ++ ")"
+partial def wireInner (ts : Toks) : String := String.join (ts.map (fun t => wireTT t ++ " "))
+end
+def wireToks (ts : Toks) : String := "[T " ++ wireInner ts ++ "]"
+
 def outcomeKind : Outcome → String
   | .ok _ => "ok"
   | .diag _ => "diag"
@@ -50,7 +62,9 @@ def outcomesAgree (m : Outcome) (r : Real) : Bool :=
 
 def bstr (b : Bool) : String := if b then "1" else "0"
 
-def processCase (c : Case) (verbose : Bool) : List String :=
+def processCase (c0 : Case) (verbose : Bool) (owned : List Toks := []) : List String :=
+  -- the real expansion up to the macro's own inert attributes (second pass only, see Obs.stripOwned)
+  let c : Case := { c0 with real := Obs.stripOwned owned c0.real }
   match c.item with
   | none =>
       -- outside the modelled domain: only the real outcome is reported
@@ -72,7 +86,10 @@ def processCase (c : Case) (verbose : Bool) : List String :=
         | _, .ok _ r => (false, false, r.prefixOk, r.parsed)
         | _, _ => (true, true, true, true)
       let props := Obs.evalAll c.variant c.attr item c.input m c.real c.info ++ " " ++ Obs.evalC15 c.variant c.attr item m c.real (rt && synStable item c.input)
-      let head := s!"RES {c.id} modelled=1 rt={bstr rt} model={outcomeKind m} real={realKind c.real} agree={bstr agree} tok={bstr tok} struct={bstr struct_} prefix={bstr prefixOk} parsed={bstr parsed} {props}"
+      -- inert attributes found on generated items (before stripping): `hex(tokens inside #[..]):u`, u = the user wrote it too
+      let xa := (Obs.inertOnGenerated item c0.real).map (fun (a, u) => s!"{Obs.hexOf (wireToks a.inner)}:{bstr u}")
+      let xaS := if xa.isEmpty then "" else " XA=" ++ ",".intercalate xa.eraseDups
+      let head := s!"RES {c.id} modelled=1 rt={bstr rt} model={outcomeKind m} real={realKind c.real} agree={bstr agree} tok={bstr tok} struct={bstr struct_} prefix={bstr prefixOk} parsed={bstr parsed} {props}{xaS}"
       if verbose then
         let mt := match m with
           | .ok out => showToks out.render
@@ -87,7 +104,7 @@ def processCase (c : Case) (verbose : Bool) : List String :=
          s!"PRINT {c.id} {showToks item.print}", s!"MODEL {c.id} {mt}", s!"REAL {c.id} {rtxt}"]
       else [head]
 
-partial def loop (h : IO.FS.Stream) (out : IO.FS.Stream) (verbose : Bool) : IO Unit := do
+partial def loop (h : IO.FS.Stream) (out : IO.FS.Stream) (verbose : Bool) (owned : List Toks := []) : IO Unit := do
   let line ← h.getLine
   if line.isEmpty then return ()
   let line := line.trimAscii.toString
@@ -99,16 +116,25 @@ partial def loop (h : IO.FS.Stream) (out : IO.FS.Stream) (verbose : Bool) : IO U
     | some sx =>
       match dCase sx with
       | none => out.putStrLn s!"BADCASE {(line.take 80).toString}"
-      | some c => for l in processCase c verbose do out.putStrLn l
-  loop h out verbose
+      | some c => for l in processCase c verbose owned do out.putStrLn l
+  loop h out verbose owned
 
 def main (args : List String) : IO UInt32 := do
   let verbose := args.contains "--verbose"
   let files := args.filter (fun a => !a.startsWith "--")
   let out ← IO.getStdout
+  -- second pass: `--owned=<file>`, one attribute per line in the wire syntax of token lists
+  let owned : List Toks ←
+    match args.find? (fun a => a.startsWith "--owned=") with
+    | some a => do
+        let txt ← IO.FS.readFile ((a.drop 8).toString)
+        pure ((txt.splitOn "\n").filterMap (fun l =>
+          let l := l.trimAscii.toString
+          if l.isEmpty then none else (parseLine l).bind dToks))
+    | none => pure []
   match files with
-  | [] => loop (← IO.getStdin) out verbose
+  | [] => loop (← IO.getStdin) out verbose owned
   | f :: _ =>
       let h ← IO.FS.Handle.mk f .read
-      loop (IO.FS.Stream.ofHandle h) out verbose
+      loop (IO.FS.Stream.ofHandle h) out verbose owned
   return 0
